@@ -1,4 +1,5 @@
 import Proofs.TrieBuild
+import Proofs.TrieOfTable
 import Properties.C03Trie
 /-!
 # C03 (trie clause, builder) — lm/search_trie.cc between the ARPA n-grams and the trie memory
@@ -17,16 +18,19 @@ theorem trie_build_represents (a : Arpa) (wf : WellFormed a) … :
     buildTrie fadd order bound start (gramsOf a) = .ok M → ∃ rng, Represents fval M (Table.build a) rng
 theorem trie_end_to_end … : (fullScore (TrieLM.search fval M) s w).1.prob = score a h w      -- = trie_prob ∘ trie_build_represents
 ```
-What is proved towards it (general, unbounded): `trie_build_represents_partial` (the `BlankManager` pass: blanks are exactly
-non-real proper prefixes based on the longest real proper prefix; missing-unigram error only when a unigram is missing),
-`trie_write_frame` (memory = OR of pairwise disjoint fields ⇒ every field reads back, for any number of writes),
-the strict order lemmas of the visit order.  Gaps, named: (G1) `visitOrder` of a duplicate-free list is `KeysLt` (insertion
-sort + trichotomy of `keyLt`; any batching gives the same list by C16 `extSort_unique`); (G2) the field list of `ofTable` is
-pairwise disjoint (from C04 `trie_regions` + record arithmetic) and the level/`childStarts` combinatorics give sorted child
-ranges = `rngOf` — together with `trie_write_frame` this is `Represents (ofTable bt …)`; (G3) `blankProb` with exact addition
-= `score a ctx w` and the extension marks = `Table.build`'s `extendsRight` (needs a value encoding between `Arpa`'s rationals
-and float bits); (G4) `ofTable` for ArrayBhiksha / SeparatelyQuantize layouts (only compared through lookups).
-G2 is discharged *per instance* on every generated model by the verified checker (stream `triebuild`).
+Status after round 4 (all general, unbounded unless marked):
+* G1 CLOSED — `visit_order_strict`: the insertion-sorted visit order of a list that passes the duplicate check is strictly
+  increasing; `trie_build_visit` applies the `BlankManager` theorem to it.
+* G2 CLOSED modulo `ShapeOK` — `ofTable_represents`: `Represents (ofTable bt …) (tableOf (ftOf bt))` for every well-formed bit
+  table (`BTOK`, `ValsOK`), from `trie_regions_read` (regions of fixed-stride records ⇒ every slot reads back), the level
+  combinatorics (Proofs/TrieLevels.lean) and the C20 read lemmas; corollary `trie_build_refines` (FullScore over the memory
+  the model builder writes = FullScore over the bit table, no `Represents` hypothesis).  `ShapeOK` (G2b, open in general) =
+  the layout facts of the C04 model for the plain shape: widths `RequiredBits`, `total_bits = word+63+inline`, regions in
+  file order; proved for the example by `decide` (`example_shape_ok`), and the layout model itself is compared with the real
+  `SetupMemory` on every run of check C04.
+* G3 OPEN — `blankProb` / extension marks = `Table.build a` (value encoding between exact rationals and float bits), hence
+  `trie_build_represents`, `trie_end_to_end` and `trie_end_to_end_closed` are NOT proved.
+* G4 OPEN — `ofTable` for ArrayBhiksha / SeparatelyQuantize layouts (compared through lookups only).
 -/
 namespace KV.C03TrieBuild
 open KV.Arpa KV.TrieLM KV.TrieBuild
@@ -83,5 +87,89 @@ example : KeysLt (visitOrder exampleGrams) := by unfold KeysLt; decide
 example : (match visitAll (visitOrder exampleGrams) with
     | .ok st => some (st.blanks.map (fun b => (b.key, b.basedOn, b.basis)))
     | .error _ => none) = some [([4, 5], 1, 3212836864)] := by decide
+
+
+/-! ## Round 4: G1 and G2 closed -/
+
+/-- **G1** — the visit order (insertion sort by `keyLt`) of a list on which the duplicate check passed is strictly increasing;
+and it is a rearrangement of the input (same members). -/
+theorem visit_order_strict (gs : List Gram) (hd : hasDuplicate (visitOrder gs) = false) :
+    KeysLt (visitOrder gs) ∧ ∀ x, x ∈ visitOrder gs ↔ x ∈ gs :=
+  ⟨visitOrder_keysLt gs hd, mem_visitOrder gs⟩
+
+/-- hence the `BlankManager` theorem applies to what `buildTable` actually visits -/
+theorem trie_build_visit (gs : List Gram) (hd : hasDuplicate (visitOrder gs) = false) (hne : ∀ g ∈ gs, 1 ≤ g.key.length) :
+    match visitAll (visitOrder gs) with
+    | .ok st => ∀ b ∈ st.blanks, ∃ g ∈ visitOrder gs, BlankOK (visitOrder gs) g b
+    | .error e => e = .missingUnigram ∧ ∃ g ∈ visitOrder gs, 2 ≤ g.key.length ∧ realOf (visitOrder gs) (g.key.take 1) = none :=
+  trie_build_represents_partial _ (visitOrder_keysLt gs hd) (fun g hg => hne g ((mem_visitOrder gs g).mp hg))
+
+/-- **regions_read** (G2, memory part): in a memory assembled from regions of fixed-stride records whose bit extents follow one
+another (record `i` of a region occupies bits `[base + i·stride, base + (i+1)·stride)`, slots at fixed offsets inside), every
+written slot reads back its value. -/
+theorem trie_regions_read (Rs : List RegionSpec) (hok : ∀ R ∈ Rs, R.OK) (hord : Rs.Pairwise RegionSpec.Before)
+    (R : RegionSpec) (hR : R ∈ Rs) (i s v : Nat) (hi : i < R.nrec) (hs : s < R.slots.length) (hv : R.val i s = some v) :
+    (orFields 0 (allFields Rs) >>> (R.base + i * R.stride + R.slotOff s)) % 2^(R.slotLen s) = v :=
+  regions_read Rs hok hord R hR i s v hi hs hv
+
+/-- **G2 — `Represents (ofTable bt …) (tableOf bt)` in general** (plain `TrieModel` layout): for every bit table with unique
+keys, all unigrams, word ids below the bound and every entry's parent present (`BTOK`: what the builder delivers after blank
+insertion), 32-bit values (`ValsOK`), any order ≥ 2, any number of entries: the memory the fold `ofTable` writes represents
+the table — every record is read back (`regions_read`), child ranges are the running next pointers (`rngOf`), sorted, complete,
+with an end-pointer record per order.  `ShapeOK` are the layout facts of the C04 model for this shape (bit widths
+`RequiredBits`, total bits without `uint8` wrap, the regions in file order); decidable per instance (`example_shape_ok`). -/
+theorem ofTable_represents (fval : Nat → Rat) (bt : BT) (bound order start : Nat) (ok : BTOK bt bound order) (hv : ValsOK bt)
+    (sh : ShapeOK bt bound order start) :
+    Represents fval (ofTable bt bound order start) (tableOf (ftOf fval bt order) order) (rngOf bt bound) :=
+  KV.TrieLM.ofTable_represents fval bt bound order start ok hv sh
+
+open KV.Score KV.State in
+/-- **trie_build_refines**: FullScore over the memory the MODEL builder writes = FullScore over the bit table, for every
+state and word with valid ids — no `Represents` hypothesis. -/
+theorem trie_build_refines (fval : Nat → Rat) (bt : BT) (bound order start : Nat) (ok : BTOK bt bound order) (hv : ValsOK bt)
+    (sh : ShapeOK bt bound order start) (s : State) (w : Word) (hw : w < bound)
+    (hs : ∀ x ∈ s.words.take s.length, x < bound) :
+    (fullScore (search fval (ofTable bt bound order start)) s w).1.prob
+        = (fullScore (tableSearch (tableOf (ftOf fval bt order) order)) s w).1.prob ∧
+    (fullScore (search fval (ofTable bt bound order start)) s w).1.ngramLength
+        = (fullScore (tableSearch (tableOf (ftOf fval bt order) order)) s w).1.ngramLength ∧
+    (fullScore (search fval (ofTable bt bound order start)) s w).1.independentLeft
+        = (fullScore (tableSearch (tableOf (ftOf fval bt order) order)) s w).1.independentLeft ∧
+    (fullScore (search fval (ofTable bt bound order start)) s w).1.rest
+        = (fullScore (tableSearch (tableOf (ftOf fval bt order) order)) s w).1.rest ∧
+    (fullScore (search fval (ofTable bt bound order start)) s w).2
+        = (fullScore (tableSearch (tableOf (ftOf fval bt order) order)) s w).2 := by
+  have hb : (ofTable bt bound order start).bound = bound := ofTable_bound bt bound order start (by have := ok.order2; omega)
+  exact KV.C03Trie.trie_refines fval _ _ _ (ofTable_represents fval bt bound order start ok hv sh) ok.order2 s w
+    (by rw [hb]; exact hw) (by rw [hb]; exact hs)
+
+/-- non-vacuity: the hypotheses hold for the example model (13 entries incl. the blank) -/
+theorem example_btok : BTOK KV.C03Trie.ExampleBuilt.bt 6 3 := by
+  refine ⟨by decide, by decide, by decide, by decide, ?_, ?_⟩
+  · intro w hw
+    have : w = 0 ∨ w = 1 ∨ w = 2 ∨ w = 3 ∨ w = 4 ∨ w = 5 := by omega
+    rcases this with rfl | rfl | rfl | rfl | rfl | rfl <;> exact (lookup_ne_none_iff _ _).mp (by decide)
+  · have h : ∀ p ∈ KV.C03Trie.ExampleBuilt.bt, 2 ≤ p.1.length → KV.C03Trie.ExampleBuilt.bt.lookup p.1.dropLast ≠ none := by decide
+    intro p hp h2; exact (lookup_ne_none_iff _ _).mp (h p hp h2)
+
+theorem example_vals : ValsOK KV.C03Trie.ExampleBuilt.bt := by unfold ValsOK; decide
+
+instance : DecidableRel RegionSpec.Before := fun a b => by unfold RegionSpec.Before; infer_instance
+
+/-- the layout facts hold for the example (search region at file offset 192, as in the real file) -/
+theorem example_shape_ok : ShapeOK KV.C03Trie.ExampleBuilt.bt 6 3 192 := by
+  refine ⟨by decide +kernel, ?_, ⟨379, by decide +kernel⟩, by decide +kernel, ⟨by decide +kernel, by decide +kernel⟩,
+    ⟨by decide, by decide +kernel⟩⟩
+  intro om2 h
+  have : om2 = 0 := by omega
+  subst this
+  exact ⟨320, by decide +kernel⟩
+
+/-- so, unconditionally for this model: FullScore over the memory `ofTable` writes (= the bytes of the real file,
+`C03Trie.ExampleBuilt.built_eq_real_file`) equals FullScore over its bit table -/
+theorem example_build_refines (s : KV.State.State) (w : Word) (hw : w < 6) (hs : ∀ x ∈ s.words.take s.length, x < 6) :
+    (KV.Score.fullScore (search f32ToRat (ofTable KV.C03Trie.ExampleBuilt.bt 6 3 192)) s w).1.prob
+      = (KV.Score.fullScore (KV.Score.tableSearch (tableOf (ftOf f32ToRat KV.C03Trie.ExampleBuilt.bt 3) 3)) s w).1.prob :=
+  (trie_build_refines f32ToRat _ 6 3 192 example_btok example_vals example_shape_ok s w hw hs).1
 
 end KV.C03TrieBuild
